@@ -83,10 +83,18 @@ def model_serve(driver, atts):
             'replies': [unh(x) for x in m.group(8).split(',')] if m.group(8) else []}
 
 
-NAMES = ['a', 'b', 'Team A', 'x y', '', 'ñ', 'N/S', 'team (1)']
+NAMES = ['a', 'b', 'Team A', 'x y', '', 'ñ', 'N/S', 'team (1)', 'TEAM A', 'A']
 
 
-def gen_sequence(rng, driver):
+def near_miss(rng, team):
+    """another team name that differs from `team` as little as a name can: letter case only, one blank more, one character
+    more — the partner test is an exact comparison (seeded change C20e-1 made it case-insensitive)"""
+    cands = [t for t in (team.upper(), team.lower(), team.swapcase(), team + ' ', ' ' + team, team + 'x', team[:-1]) if t != team]
+    return rng.choice(cands)
+
+
+
+def gen_sequence(rng, driver, ctx_count=lambda k: None):
     """a request sequence with every kind of verdict that ends with a full table"""
     ns, ew = rng.sample(NAMES, 2)
     atts = []
@@ -112,7 +120,9 @@ def gen_sequence(rng, driver):
             atts.append({'team': team, 'seat': rng.choice([q for q in SEATS if mres['table'][q] is not None] or [p]), 'version': 18})
         if mres['table'][partner] is not None and rng.random() < 0.5:
             # a free seat whose partner is seated, under another team name: must be turned away, the seat stays free
-            atts.append({'team': rng.choice([x for x in NAMES if x != team]), 'seat': p, 'version': 18})
+            other = near_miss(rng, team) if rng.random() < 0.5 else rng.choice([x for x in NAMES if x != team])
+            ctx_count('near_miss_team' if other.lower() == team.lower() else 'other_team')
+            atts.append({'team': other, 'seat': p, 'version': 18})
         atts.append({'team': team, 'seat': p, 'version': 18})
     # drop what would come after the table is full, then add a few requests that will never be served
     atts = atts[:len(mres['verdicts'])]
@@ -343,12 +353,19 @@ def extra_checks(ctx):
     n = 8 if ctx.quick else 120
     for k in range(n):
         mode = 'sequence' if k % 2 == 0 else 'free'
-        atts = gen_sequence(rng, driver) if mode == 'sequence' else gen_free(rng)
+        atts = gen_sequence(rng, driver, ctx.count) if mode == 'sequence' else gen_free(rng)
         if k == 0 and ctx.shard == 0:
             atts = [{'team': 'x', 'seat': 'N', 'version': 17}, {'team': 'x', 'seat': 'N', 'version': 18},
                     {'team': 'x', 'seat': 'N', 'version': 18}, {'team': 'y', 'seat': 'S', 'version': 18},
                     {'team': 'z', 'seat': 'W', 'version': 18}, {'team': 'x', 'seat': 'S', 'version': 18},
                     {'team': 'z', 'seat': 'E', 'version': 18}]
+        if k == 2 and ctx.shard == 0:
+            # partners' names that differ in letter case / by one blank only are DIFFERENT names (fixed case; seeded C20e-1)
+            atts = [{'team': 'Alpha', 'seat': 'N', 'version': 18}, {'team': 'ALPHA', 'seat': 'S', 'version': 18},
+                    {'team': 'b', 'seat': 'W', 'version': 18}, {'team': 'b ', 'seat': 'E', 'version': 18},
+                    {'team': 'Alpha', 'seat': 'S', 'version': 18}, {'team': 'B', 'seat': 'E', 'version': 18},
+                    {'team': 'b', 'seat': 'E', 'version': 18}]
+            ctx.count('near_miss_team', 3)
         pdesc = SP.random_policy_desc(rng, 600)
         if pdesc['kind'] in ('stall', 'stall_after') and not pdesc['victim'].startswith(('main', 'seat')):
             pdesc['victim'] = 'main'
